@@ -377,14 +377,16 @@ class TreeDiff(vlib.Differential):
         except Exception:
             return case
         budget = 150
+        import time
+        t_end = time.time() + 15          # a broken library may hang on every candidate
         improved = True
-        while improved and budget > 0:
+        while improved and budget > 0 and time.time() < t_end:
             improved = False
             for q in subtrees_replacements(p):
                 if size(q) >= size(p) and q != p and not (len(show(q)) < len(show(p))):
                     continue
                 budget -= 1
-                if budget <= 0: break
+                if budget <= 0 or time.time() > t_end: break
                 if fails(show(q)):
                     p = q; improved = True
                     break
@@ -470,7 +472,7 @@ def lex_source(cases):
 
 class Impl:
     """run_impl of both harnesses: canonical transcripts; a TIMEOUT seen with the short per-case
-    watchdog is believed only after the case timed out again on its own with a long one (a loaded
+    watchdog is believed only after the case timed out again on its own with a long one (10 s) (a loaded
     machine must not raise an alarm); after three confirmed hangs the short watchdog is trusted"""
     confirmed = 0
 
@@ -497,11 +499,11 @@ class Impl:
     def __call__(self, cases):
         exe = self.exe or self.build(cases)
         inputs = cases if self.exe else [str(i) for i in range(len(cases))]
-        lines = self.raw(exe, inputs, 2)
+        lines = self.raw(exe, inputs, 1)
         lines += ['RAW[harness stopped]'] * (len(cases) - len(lines))
         for k, l in enumerate(lines):
             if l.endswith('| TIMEOUT') and Impl.confirmed < 3:
-                l2 = self.raw(exe, [inputs[k]], 15)
+                l2 = self.raw(exe, [inputs[k]], 10)
                 lines[k] = l2[0] if l2 else l
                 if lines[k].endswith('| TIMEOUT'):
                     Impl.confirmed += 1
@@ -603,13 +605,16 @@ def run(ctx):
         return
 
     def feed(dd, cases, chunk):
-        """in chunks; once a harness has 25 failing cases the rest of its stream is skipped (a broken
+        """in chunks; once a harness has 10 failing cases the rest of its stream is skipped (a broken
         library can make every other case hang until the watchdog)"""
-        for i in range(0, len(cases), chunk):
-            if len(dd.oracle_fail) + len(dd.corr_fail) >= 25:
-                ctx.notes.append('%s: stream cut after %d cases (25 failing cases collected)' % (dd.name, dd.ncases))
+        i, step = 0, min(chunk, 25)
+        while i < len(cases):
+            if len(dd.oracle_fail) + len(dd.corr_fail) >= 10:
+                ctx.notes.append('%s: stream cut after %d cases (10 failing cases collected)' % (dd.name, dd.ncases))
                 return
-            dd.feed(cases[i:i + chunk])
+            dd.feed(cases[i:i + step])
+            i += step
+            step = min(chunk, step * 2)
 
     bound = [nest_case(mx, '!1,5', ''),                 # exactly the bound: in scope
              ' '.join(['T0'] * (mx - 1) + ['T1'] + ['!1,5'] + ['t1'] + ['t2'] * (mx - 1)),   # caught by the innermost of mx blocks
@@ -625,7 +630,7 @@ def run(ctx):
         cases.append(g.case(25 if i % 4 else 9))
     ndeep = 60 if quick else 1500
     cases += [g.deep(ctx.rng.choice([30, 33, 40, 64, 100, 200])) for _ in range(ndeep)]
-    feed(d, cases, 250 if quick else 5000)
+    feed(d, cases, 100 if quick else 5000)
     for c in cases:
         s = size(parse(c)); b = 'nodes<=8' if s <= 8 else 'nodes<=16' if s <= 16 else 'nodes<=25' if s <= 25 else 'nodes>25'
         hist[b] = hist.get(b, 0) + 1
